@@ -128,6 +128,44 @@ func main() {
 			}
 		}
 	}
+	// termination must not depend on the outcome: the @defer operations again with failing
+	// / null resolvers (an object nulled by its own non-null field next to a deferred
+	// fragment, a nulled ancestor, failures inside groups), drained to the last payload,
+	// executor-direct and over the streaming transports, no cancellation
+	faultQs := []string{
+		"{ a { id sn ... @defer { s } } }",
+		"{ as { sn ... @defer { s kid { id } } } }",
+		"{ a { kidn { sn ... @defer(label: \"k\") { s } } id } sn }",
+		"{ asn { id ... @defer { sn kid { sn ... @defer { s } } } } }",
+	}
+	for i, q := range faultQs {
+		ops = append(ops, &vlib.Scenario{ID: fmt.Sprintf("C05-f%d", i), Query: q})
+	}
+	if err := vlib.RunScenarios(bins[vs[0].ID()], ops[len(ops)-len(faultQs):], 4, nil); err != nil {
+		vlib.Infra("baseline (fault corpus): %v", err)
+	}
+	nf := 0
+	for _, o := range ops {
+		if !strings.Contains(o.Query, "@defer") || o.Result == nil {
+			continue
+		}
+		for k := 0; k < 4; k++ {
+			plan := vlib.C07DerivePlan(schema, o.Result, r, []int{25, 50, 75, 40}[k])
+			if len(plan) == 0 {
+				continue
+			}
+			for _, mode := range []string{"", "tp:sse", "tp:mixed"} {
+				for _, sched := range []string{"", "lifo"} {
+					if !thorough && sched == "lifo" && (k+nf)%2 == 1 {
+						continue
+					}
+					nf++
+					all = append(all, &vlib.Scenario{ID: fmt.Sprintf("%s-fault%d-%s-%s", o.ID, k, sched, mode), Op: o.Op, Query: o.Query, Vars: o.Vars,
+						Plan: plan, Sched: sched, Mode: mode, Leak: true})
+				}
+			}
+		}
+	}
 	for _, v := range vs {
 		var scs []*vlib.Scenario
 		for _, t := range all {
@@ -147,6 +185,9 @@ func main() {
 				s = vlib.Confirm(bins[v.ID()], s, nil) // absence verdicts need a generous second look
 			}
 			feat := fmt.Sprintf("wl%d|defer=%v|mode=%s", v.WorkerLimit, strings.Contains(s.Query, "@defer"), s.Mode)
+			if len(s.Plan) > 0 {
+				feat += "|faults"
+			}
 			c.Class(fmt.Sprintf("%s|k=%d|%s", feat, s.Cancel, s.Sched))
 			switch {
 			case s.Crashed || s.Result == nil:
